@@ -430,6 +430,10 @@ def search_space_not_wider_than_matrix(ctx, rule='rayleigh-ritz-basis-fits-the-m
             for x in fn.walk(lp['body']):
                 if x['k'] == 'IfStmt':
                     c = sym(fn, x['cond'])
+                    conj = [c]
+                    while any(y_[0] == '&&' for y_ in conj):
+                        conj = [z_ for y_ in conj for z_ in (y_[1:] if y_[0] == '&&' else [y_])]
+                    c = ([y_ for y_ in conj if y_[0] in ('<', '<=') and y_[1] == ('F', MX)] or [c])[0]
                     if c[0] in ('<', '<=') and c[1] == ('F', MX) and 'size' in show(c[2]) and \
                             any(y['k'] == 'CXXMemberCallExpr' and y.get('callee') == 'restart' for y in fn.walk(x['then'])):
                         tests.append(x)
@@ -578,6 +582,62 @@ def default_sizes_admissible(ctx, rule='constructed-search-space-sizes-admissibl
 RANK_REVEALING = ('Eigen::ColPivHouseholderQR', 'Eigen::FullPivHouseholderQR', 'Eigen::CompleteOrthogonalDecomposition', 'Eigen::JacobiSVD', 'Eigen::BDCSVD')
 
 
+def _truncation(g, t, qr, appended):
+    """How many columns of the orthogonal factor are kept.  `rank()` of the factorization compares the pivots with the LARGEST
+    pivot of the projected block: when every correction already lies in the search space (correction size below nev, fewer pairs
+    than nev, a tolerance at rounding level) the whole block is rounding noise, its largest pivot too, and the noise is declared
+    full rank -- the appended columns lie in span(V) again (replayed: Successful with zero vectors for block-diagonal matrices).
+    The count must compare the pivots with the size of the vectors BEFORE the projection: either the columns are normalised
+    before the projection and the threshold is absolute, or the threshold carries a norm of the caller's block."""
+    param = g.locals[g.params[0]]['name']
+    # the count: a local used in t, incremented under / initialised from a comparison with the diagonal of R
+    cands = [g.locals[v]['name'] for v in g.locals if g.locals[v]['name'] in t and v not in g.params]
+    rank_calls = [x for x in g.walk() if x['k'] == 'CXXMemberCallExpr' and x.get('callee') == 'rank']
+    if rank_calls:
+        return False, ('the number of new directions is rank() of the factorization of the PROJECTED block, which compares the pivots with its largest pivot: when every correction lies in the '
+                       'current search space the block is rounding noise, the noise is declared full rank and appended')
+    loops = [x for x in g.walk() if x['k'] in ('WhileStmt', 'ForStmt') and any(k in show(sym(g, x['cond'], inline=False)) for k in ('matrixR(', 'matrixQR(', 'singularValues('))]
+    counted = None
+    for lp in loops:
+        c = show(sym(g, lp['cond'], inline=False))
+        for nm in cands:
+            incs = [y for y in g.walk(lp['body']) if y['k'] in ('UnaryOperator', 'CompoundAssignOperator') and y.get('op') in ('++', '+=') and nm in g.s(y)]
+            incs += [y for y in g.walk(lp.get('inc', lp['body'])) if isinstance(lp.get('inc'), int) and lp.get('inc', -1) >= 0 and y['k'] == 'UnaryOperator' and nm in g.s(y)]
+            if nm in c and incs:
+                counted = (nm, lp, c)
+    if counted is None:
+        return False, 'the orthogonal factor of the pivoted factorization is not truncated to a count of its significant pivots'
+    nm, lp, c = counted
+    # reference of the threshold
+    thr_mentions_param = param in c or any(param in show(sym(g, d['init'], inline=False)) for x in g.walk() if x['k'] == 'DeclStmt' for d in x['decls']
+                                           if 'init' in d and g.locals[d['var']]['name'] in c and g.locals[d['var']]['name'] != nm and 'norm' in show(sym(g, d['init'], inline=False)))
+    # columns normalised before the projection: col(W, j) /= norm(col(W, j)) (or normalized()) dominating the first projection
+    wname = None
+    for x in g.walk():
+        if x['k'] == 'DeclStmt':
+            for d in x['decls']:
+                if 'init' in d and sym(g, d['init'], inline=False) == ('P', param):
+                    wname = g.locals[d['var']]['name']
+    normalised = False
+    projs = [x for x in g.walk() if x['k'] in ('CXXOperatorCallExpr', 'CompoundAssignOperator') and x.get('op') == '-=' and 'transpose(' in show(sym(g, x, inline=False))]
+    for x in g.walk():
+        if x['k'] in ('CXXOperatorCallExpr', 'CompoundAssignOperator') and x.get('op') == '/=':
+            tt = sym(g, x, inline=False)
+            if tt[1][0] == 'col' and wname and tt[1][1] == ('L', wname) and tt[2][0] == 'L':
+                init = [show(sym(g, d['init'], inline=False)) for y in g.walk() for d in (y['decls'] if y['k'] == 'DeclStmt' else []) if 'init' in d and g.locals[d['var']]['name'] == tt[2][1]]
+                if init and init[0].startswith('norm(col(%s' % wname) and projs and all(x['l'] < p_['l'] for p_ in projs):
+                    normalised = True
+    if any('normalized(' in show(sym(g, d['init'], inline=False)) for x in g.walk() if x['k'] == 'DeclStmt' for d in x['decls'] if 'init' in d and wname and g.locals[d['var']]['name'] == wname):
+        normalised = True
+    if 'maxPivot' in c or '()(matrixR(%s), 0, 0)' % '' in c:
+        return False, 'the pivots are compared with the largest pivot of the projected block, which is noise when every correction lies in the search space'
+    if normalised or thr_mentions_param:
+        return True, ('the appended block is the leading %s columns of the orthogonal factor of a %s, %s counting the pivots above a threshold that refers to the vectors before the projection (%s)'
+                      % (nm, qr['type'].split('<')[0], nm, 'columns normalised first' if normalised else 'threshold times a norm of the caller\'s block'))
+    return False, ('the pivots of the projected block are compared with a threshold that does not refer to the size of the corrections before the projection '
+                   '(columns not normalised, no norm of `%s` in the threshold): the count depends on the scale of the corrections' % param)
+
+
 def new_directions_are_independent(ctx, rule='search-space-basis-orthonormal'):
     """The correction block handed to the search space can be rank deficient after projection against the current basis: a
     correction computed from the rounding-level residual of an already exact pair lies in the search space, and corrections of a
@@ -605,13 +665,7 @@ def new_directions_are_independent(ctx, rule='search-space-basis-orthonormal'):
                     t = show(sym(g, init[0], inline=False))
                     qrs = [g.locals[y['var']] for y in g.walk(init[0]) if y['k'] == 'DeclRefExpr' and 'var' in y and g.locals[y['var']]['type'].startswith(RANK_REVEALING)]
                     if qrs and 'householderQ' in t or (qrs and ('matrixU' in t or 'matrixQ' in t)):
-                        # truncated to the rank of that factorization
-                        rk = [d for x in g.walk() if x['k'] == 'DeclStmt' for d in x['decls'] if 'init' in d and show(sym(g, d['init'], inline=False)).startswith('rank(')]
-                        names = [g.locals[d['var']]['name'] for d in rk]
-                        if any(nm in t for nm in names) or 'rank(' in t:
-                            ok, why = True, 'the appended block is the leading rank() columns of the orthogonal factor of a %s' % qrs[0]['type'].split('<')[0]
-                        else:
-                            why = 'the orthogonal factor of the pivoted factorization is not truncated to its rank'
+                        ok, why = _truncation(g, t, qrs[0], a)
                     else:
                         why = 'the appended block `%s` does not come from a rank-revealing factorization' % t[:60]
             elif a is not None and a['k'] == 'DeclRefExpr' and a.get('var') in g.params:
@@ -665,7 +719,21 @@ def counts_within_available_pairs(ctx, rule='counts-clamped-by-available-pairs')
         ctx.check(ok, rule, 'RitzPairs::check_convergence', fn.qname,
                   'all-converged starts from `number of pairs >= nev`' if ok else
                   'the verdict starts from `%s`: with fewer pairs than nev the loop over the existing pairs leaves it true and Successful is reported with fewer than nev pairs' % [show(t) for t in inits])
-    if n < 3:
+    # (d) a restart collapses the space onto the Ritz vectors: it needs some (an initial space wider than the maximal size reaches
+    # the restart test in the first iteration, when the pairs have just been emptied)
+    for fn in [f for f in ctx.F.concrete() if f.cls == 'Spectra::JDSymEigsBase' and f.name == 'compute_with_guess' and f.cfg][:2]:
+        calls = [x for x in fn.walk() if x['k'] == 'CXXMemberCallExpr' and x.get('callee') == 'restart']
+        if not calls:
+            raise AnalysisBroken('%s: no restart call' % fn.qname)
+        for c in calls:
+            conds = [show(sym(fn, i['cond'])) for i in fn.ancestors(c) if i['k'] == 'IfStmt' and fn.within(c, i['then'])]
+            ok = any(('size(m_ritz_pairs)' in t and ('0 <' in t or '> 0' in t or '1 <=' in t)) or ('niter_' in t and ('0 <' in t or '> 0' in t)) for t in conds)
+            n += 1
+            ctx.check(ok, rule, 'JDSymEigsBase::compute_with_guess/restart', fn.qname,
+                      'the restart is taken only when Ritz pairs exist (%s)' % ' && '.join(conds)[:120] if ok else
+                      'restart() can run under `%s` before any Ritz pair exists: with an initial space wider than the maximal size (set_initial_search_space_size, a wide guess) the first '
+                      'iteration collapses the basis onto zero Ritz vectors and the next product is taken of a 0 x 0 matrix (assertion / null-pointer read)' % ' && '.join(conds)[:120])
+    if n < 4:
         raise AnalysisBroken('only %d count sites analysed' % n)
 
 
